@@ -258,7 +258,7 @@ def _type_of(ex, t: Term, st, d, pt) -> frozenset:
             # assume the loop preserves the type of its carried variable if next has the same type modulo itself
             return ti
         return UNK
-    if op in ("func", "bound", "closure"):
+    if op in ("func", "bound", "closure", "partial"):
         return frozenset(["func"])
     if op == "class":
         return frozenset(["class"])
